@@ -59,7 +59,7 @@ func (p c11) Run(runseed uint64, tier string, acc *Acc) []*core.Violation {
 		acc.Inc("rawbytes")
 	}
 	f, ok := genFile(r, o)
-	if r.Chance(1, 12) {
+	if r.Chance(1, 5) {
 		// embedded-trailer arm: since the reader checks the trailing magic, the only prefixes that get past
 		// the footer check are those that end in a readable trailer of their own
 		mk := embeddedTrailerFile
